@@ -9,7 +9,7 @@ From Coq Require Import List NArith ZArith Bool.
 Import ListNotations.
 From NV Require Import Rec.FreeVars Rec.FreeVarsProofs.
 From NV Require Import Rec.Lang Rec.Spec Rec.Mech Rec.SpecProofs Rec.MechInv Rec.MechMerge Rec.History
-  Rec.Refuted Rec.Bridge.
+  Rec.Refuted Rec.Bridge Rec.Nested Rec.NestedProofs.
 
 (* ================================================================= part A: the dependency analysis *)
 Theorem C07_collect_sound_complete : forall t x, In x (collect false t) <-> free x t.
@@ -138,9 +138,38 @@ Theorem C07_depsunknown_equiv : forall h i,
   end.
 Proof. exact depsunknown_equiv. Qed.
 
+(* nested records (two levels): reading into a record-valued field instantiates the record literal
+   with the names of the enclosing record bound to the fields of the enclosing INSTANCE; the inner
+   instance is coherent and denotes the record the specification assigns to that field of the final
+   record; a piecewise definition of records instantiates both sides and merges the instances *)
+Theorem C07_inst_ok : forall c F st ro k,
+  faithful false c -> coherent false st ro ->
+  inst_rel st (inst c F st ro k) (sinst F (abs st ro) k).
+Proof. exact inst_ok. Qed.
+
+Theorem C07_nested_history_fields : forall c h i k F,
+  faithful false c -> lits_ok false h ->
+  let (st, slots) := irun c h in
+  match nth_error slots i, nth_error (srun h) i with
+  | Some (Rid r), Some (Some R) =>
+      ifield F st r k = sfield F R k /\
+      match inst c F st r k, sinst F R k with
+      | Some (st', ri), Some Ri => forall fuel p, ifield fuel st' ri p = sfield fuel Ri p
+      | None, None => True
+      | _, _ => False
+      end
+  | Some BadRef, Some None => True
+  | None, None => True
+  | _, _ => False
+  end.
+Proof. exact nested_history_fields. Qed.
+
 (* the two parts meet *)
 Theorem C07_vars_free : forall t x, In x (vars t) <-> free x (emb t).
 Proof. exact vars_free. Qed.
+
+Theorem C07_svars_free : forall s x, In x (svars s) <-> free x (emb_src s).
+Proof. exact svars_free. Qed.
 
 Theorem C07_cfg_fixed_faithful : faithful false cfg_fixed.
 Proof. exact cfg_fixed_faithful. Qed.
